@@ -14,6 +14,7 @@ BASE = ("cd /repo && env -u HAPPYSIM_VERIF /venv/bin/python -m pytest -ra -q -p 
 props = [json.loads(l) for l in open(os.path.join(ROOT, "properties.jsonl"))]
 NA_REASONS = json.load(open(os.path.join(ROOT, "tools", "not_applicable.json")))
 checks, na = [], []
+VALIDATED = json.load(open(os.path.join(ROOT, "tools", "thorough_validated.json")))["validated"]
 for p in props:
     pid = p["id"]
     path = os.path.join(ROOT, "harness", pid.lower() + ".py")
